@@ -120,6 +120,21 @@ def build_seeds(run):
     except Exception as e:
         run.skip("scene seed failed: %s" % type(e).__name__)
     try:
+        # an assembly: frames below frames (3MF components, glTF child nodes)
+        nested = trimesh.Scene()
+        nested.add_geometry(box, node_name="a", geom_name="box")
+        nested.add_geometry(ico, node_name="b", geom_name="ico", parent_node_name="a",
+                            transform=trimesh.transformations.translation_matrix([3, 0, 0]))
+        nested.add_geometry(ico, node_name="c", geom_name="ico", parent_node_name="b",
+                            transform=trimesh.transformations.translation_matrix([0, 2, 0]))
+        add("export:nested_3mf", "3mf", nested.export(file_type="3mf"), ("load", "load_scene"))
+        add("export:nested_glb", "glb", nested.export(file_type="glb"), ("load", "load_scene"))
+    except Exception as e:
+        run.skip("nested scene seed failed: %s" % type(e).__name__)
+    # files that name other files
+    add("made:obj_mtllib", "obj",
+        b"mtllib model.mtl\nusemtl m\nv 0 0 0\nv 1 0 0\nv 0 1 0\nvt 0 0\nvt 1 0\nvt 0 1\nf 1/1 2/2 3/3\n", ("load", "load_scene"))
+    try:
         files = scene.export(file_type="gltf")
         add("export:gltf_zip", "zip", trimesh.util.compress(files), ("load", "load_scene"))
         add("export:gltf_json_only", "gltf", files["model.gltf"], ("load",))
@@ -260,6 +275,64 @@ def enumerate_ops(run, seed, seeds):
             reps = reps[:2] + reps[3:6]
         for r_ in reps:
             yield ("token", [k, r_])
+    # structure-aware faults --------------------------------------------------------------
+    from vmon.child_load import json_nodes, split_json, tokens_of
+
+    def text_faults(doc, budget):
+        """faults of a text document: ids copied onto other ids (cycles, dangling and double
+        references), numbers inflated, asset references redirected"""
+        ids = tokens_of(doc, "idattr")
+        pairs = [(k, j) for k in range(len(ids)) for j in range(len(ids)) if ids[k].group() != ids[j].group()]
+        seen, uniq = set(), []
+        for k, j in pairs:  # one representative per (slot, value)
+            if (k, ids[j].group()) not in seen:
+                seen.add((k, ids[j].group()))
+                uniq.append((k, j))
+        if len(uniq) > budget:
+            uniq = rng.sample(uniq, budget)
+        for k, j in uniq:
+            yield ("tokcopy", ["idattr", k, j])
+        for k in range(min(len(tokens_of(doc, "ref")), 6)):
+            for target in ("/dev/zero", "@self", "../" * 8 + "dev/zero", "missing.bin"):
+                yield ("ref", [k, target])
+
+    if data[:2] == b"PK":
+        import zipfile
+
+        try:
+            zf = zipfile.ZipFile(io.BytesIO(data))
+            members = [(i, zf.read(inf.filename)) for i, inf in enumerate(zf.infolist())][:6]
+        except Exception:
+            members = []
+        for mi, payload in members:
+            m = len(payload)
+            inner = [("truncate", [c]) for c in sorted({0, 1, m // 3, m // 2, m - 1}) if 0 <= c < m]
+            toks_n = min(len(tokens_of(payload, "num")), 10 if quick else 120)
+            for k in range(toks_n):
+                for r_ in (("99999999999", "-1") if quick else ("99999999999", "-1", "nan", "", "0")):
+                    inner.append(("token", [k, r_]))
+            inner += list(text_faults(payload, 40 if quick else 2000))
+            if split_json(payload) is not None:
+                nn = len(json_nodes(split_json(payload)[0]))
+                picks = range(nn) if not quick else rng.sample(range(nn), min(nn, 25))
+                for idx in picks:
+                    for act in ("del", "big", "neg", "inc", "null", "str", "list", "dict"):
+                        inner.append(("json", [idx, act]))
+            for _ in range(4 if quick else 200):
+                if m:
+                    inner.append(("sub", [rng.randrange(m), rng.getrandbits(8)]))
+            for iop, iargs in inner:
+                yield ("zipinner", [mi, iop, iargs])
+    else:
+        for f in text_faults(data, 40 if quick else 2000):
+            yield f
+        parts = split_json(data)
+        if parts is not None:
+            nn = len(json_nodes(parts[0]))
+            picks = range(nn) if not quick else rng.sample(range(nn), min(nn, 40))
+            for idx in picks:
+                for act in ("del", "big", "neg", "inc", "null", "str", "list", "dict"):
+                    yield ("json", [idx, act])
     # chunk delete / duplicate / swap
     nchunk = 12 if quick else 400
     for _ in range(nchunk):
@@ -299,10 +372,17 @@ def build_cases(run, seeds):
                 routes += [(e, "file") for e in seed["entries"] if e != "load"]
             # size-field faults always also go through the by-path route: read(n) on a real
             # file allocates n bytes up front, BytesIO does not
-            if op == "valid" or h % 8 == 1 or op in ("u32", "u16", "token", "u32xor", "u32add"):
+            if op == "valid" or h % 8 == 1 or op in ("u32", "u16", "token", "u32xor", "u32add", "json"):
                 routes += [(seed["entries"][h % len(seed["entries"])], "path")]
+            if op == "ref" or (op == "zipinner" and args[1] == "ref"):
+                # only a load by name has a directory to resolve other files in
+                routes = [(seed["entries"][h % len(seed["entries"])], "path")]
             if op == "valid":
                 routes += [(e, "path") for e in seed["entries"]]
+                # by name with the type spelled out, and as a pathlib.Path
+                routes += [(e, "path_ft") for e in seed["entries"]] + [("load", "pathlib")]
+            elif h % 16 == 3:
+                routes += [(seed["entries"][h % len(seed["entries"])], "path_ft")]
             for entry, via in dict.fromkeys(routes):
                 cases.append([cid, si, op, args, entry, via])
                 cid += 1
@@ -322,8 +402,9 @@ def run_children(run, seeds, cases, work):
     # cut short by the budget on a loaded machine is still a uniform sample of the enumeration
     # phase 1: valid files and size-field / token faults (where allocation and seek arithmetic
     # go wrong); phase 2: everything else.  A budget cut removes part of phase 2 only.
-    prio = [c for c in cases if c[2] in ("valid", "u32", "u16", "u32xor", "u32add", "token")]
-    rest = [c for c in cases if c[2] not in ("valid", "u32", "u16", "u32xor", "u32add", "token")]
+    PRIO = ("valid", "u32", "u16", "u32xor", "u32add", "token", "json", "tokcopy", "ref", "zipinner")
+    prio = [c for c in cases if c[2] in PRIO]
+    rest = [c for c in cases if c[2] not in PRIO]
     batches = []
     next_id = max(c[0] for c in cases) + 1
     for group in (prio, rest):
@@ -460,8 +541,11 @@ def run_children(run, seeds, cases, work):
 # ----------------------------------------------------------------------------
 
 
-def op_class(op):
-    return {"sub": "byte", "xor": "byte", "u32": "field", "u16": "field", "u32xor": "field", "u32add": "field", "token": "token",
+def op_class(op, args=None):
+    if op == "zipinner" and args:
+        return "zip_member:" + op_class(args[1])
+    return {"tokcopy": "id_copy", "json": "json", "ref": "asset_ref",
+            "sub": "byte", "xor": "byte", "u32": "field", "u16": "field", "u32xor": "field", "u32add": "field", "token": "token",
             "delete": "chunk", "dup": "chunk", "swap": "chunk", "noise": "noise", "multi": "multi",
             "raw": "noise"}.get(op, op)
 
@@ -474,7 +558,7 @@ def judge(run, seeds, results):
         ext = seed["ext"]
         outcome = rec["outcome"]
         nontrivial = op != "valid"
-        run.case("%s:%s:%s:%s" % (ext, entry, via, op_class(op)), seed["id"], op, tuple(map(str, args))[:3], entry, via,
+        run.case("%s:%s:%s:%s" % (ext, entry, via, op_class(op, args)), seed["id"], op, tuple(map(str, args))[:3], entry, via,
                  nontrivial=nontrivial,
                  sample={"seed": seed["id"], "op": op, "args": args if op not in ("splice", "raw") else "...", "entry": entry,
                          "via": via, "outcome": outcome, "detail": rec.get("detail")} if cid % 1501 == 0 else None)
